@@ -56,11 +56,19 @@ def _failure(spec, r):
 def run_chunk(args):
     spec, tier, seed, c = args
     out = dict(c=c, n=0, status={}, failing=[], sigs=set(), ops={},
-               samples=[], agg={}, by_class={}, errors=[])
-    for j in range(spec.chunk):
-        i = c * spec.chunk + j
-        rng = R.run_rng(spec.prop, tier, seed, i)
-        case = spec.draw_case(rng)
+               samples=[], agg={}, by_class={}, errors=[], enumerated=0)
+    enum = None
+    if isinstance(c, tuple):         # ('enum', first, last)
+        enum = spec.enumerated(tier)[c[1]:c[2]]
+    for j in range(spec.chunk if enum is None else len(enum)):
+        if enum is not None:
+            i = 10**6 + c[1] + j
+            case = enum[j]
+            out['enumerated'] += 1
+        else:
+            i = c * spec.chunk + j
+            rng = R.run_rng(spec.prop, tier, seed, i)
+            case = spec.draw_case(rng)
         r = e3.execute(case, props=spec.props)
         out['n'] += 1
         st = r['status']
@@ -179,19 +187,27 @@ def main(spec, argv=None):
     budget = float(os.environ.get('VERIF_BUDGET_S', 0)) or spec.budget[tier]
     n_chunks = max(1, n // spec.chunk)
     verdict = report.Verdict(prop)
+    chunks = list(range(n_chunks))
+    n_enum = 0
+    if hasattr(spec, 'enumerated'):
+        n_enum = len(spec.enumerated(tier))
+        chunks = [('enum', a, min(n_enum, a + spec.chunk))
+                  for a in range(0, n_enum, spec.chunk)] + chunks
     try:
         outs = orchestrator.run_parallel(
-            run_chunk, [(spec, tier, seed, c) for c in range(n_chunks)],
+            run_chunk, [(spec, tier, seed, c) for c in chunks],
             workers=env.n_workers(), hard_wall=900, budget_s=budget)
     except orchestrator.HarnessError as e:
         report.say('HARNESS-ERROR: {}'.format(e))
         return env.EXIT_HARNESS
     tot, status, ops, agg, by_class = 0, {}, {}, {}, {}
+    enum_done = 0
     sigs, samples, failing, errors = set(), [], [], []
     for o in outs:
         if o is None:
             continue
         tot += o['n']
+        enum_done += o.get('enumerated', 0)
         for table, src in ((status, o['status']), (ops, o['ops']),
                            (by_class, o['by_class'])):
             for k, v in src.items():
@@ -229,6 +245,9 @@ def main(spec, argv=None):
         samples=samples[:3] or [dict(note='none')],
         status_counts=status, operations_executed=ops, bound_classes=by_class,
         counters=agg,
+        enumerated_sequences=dict(
+            executed=enum_done, space=n_enum,
+            complete=bool(n_enum and enum_done == n_enum)),
         runs_per_hour=round(tot / max(wall, 1e-9) * 3600),
         components=dict(
             real=['nautilus.bounds.* and nautilus.neural from the tree under '
